@@ -26,6 +26,7 @@ static void phase(size_t lo, size_t hi) {
   pthread_barrier_destroy(&g_bar);
 }
 int main() {
+  lsm_protect_sources() = false;
   add_module_ops(g_ops, {4, 16, 1024});
   add_table_ops(g_ops);
   add_ctor_ops(g_ops);
